@@ -126,7 +126,9 @@ pub const BUF: usize = 3;
 pub const BORROW: usize = 2;
 pub const HISTORY: usize = 2;
 pub const MAX_PORTS: usize = 3;
-pub const MAX_NODES: usize = 6;
+/// as small as the scenarios allow (survivor node + victim node, later survivor node + probe node): a registry
+/// slot that a dead node keeps for ever makes the probe's open fail with ExceedsMaxNumberOfNodes
+pub const MAX_NODES: usize = 2;
 pub const ACTIVE_REQ: usize = 2;
 
 pub struct Interp {
